@@ -255,10 +255,15 @@ func runFaults(c c19Case, base map[string]uint64) (obs, bad string) {
 		var resp restResp
 		irt.SetBudget(c19Budget)
 		var pv any
+		blocked := false
 		func() {
 			defer func() { pv = recover() }()
-			resp = restDo(ctx, f.Req.Method, f.Req.uri(), f.Req.body())
+			blocked = !irt.RunGuarded(func() { resp = restDo(ctx, f.Req.Method, f.Req.uri(), f.Req.body()) })
 		}()
+		if blocked {
+			irt.SetBudget(0)
+			return obs, fmt.Sprintf("fault %d (%s): no response: the handler is blocked (no statement executed for %d s)", i, f.Name, irt.StallSeconds)
+		}
 		steps := irt.StepCount()
 		irt.SetBudget(0)
 		if pv != nil {
